@@ -2,6 +2,7 @@
 From Coq Require Import Strings.String Strings.Byte.
 From Coq Require Import List NArith.
 From Goit Require Import Bytes Obj Tree Index Regex Ignore World Repo IgnoreFacts.
+From Goit Require Import Inv IndexFacts BranchFacts ExactFacts SnapshotFacts StatusFacts.
 Import ListNotations.
 
 (* status is exactly these four filters (by computation) *)
@@ -49,6 +50,51 @@ Theorem C13_no_ignore_all_visible : forall w f,
   ~ In (str ".goit") (comps f) -> visible w [ign_builtin] f = true.
 Proof. exact no_ignore_visible. Qed.
 
+(* ---------- Part 2: the command, on every reachable repository ---------- *)
+(* status never writes: the world is unchanged and the trace empty, whatever
+   the world and the outcome; it never panics *)
+Theorem C13_status_is_read_only : forall e w,
+  exists o, step (ACmd e CStatus) w = (w, o, []) /\ o <> OPanic.
+Proof. exact status_pure. Qed.
+
+(* on every reachable repository (no flagged collision, no giant object) status
+   succeeds and its lines are exactly: "modified p" iff p is a visible tracked
+   file whose bytes hash to another id than the staged one; "deleted p" iff p is
+   tracked and there is no file at p; "untracked p" iff p is a file, visible
+   (neither ignored nor inside Goit's directory) and not tracked; and the staged
+   section is the difference with the HEAD snapshot (C07) *)
+Theorem C13_status_report_on_every_reachable_repository : forall e w c,
+  Reachable w -> w_coll w = false -> SmallStore (w_objs w) -> w_inited w = true -> ctx_of w = Some c ->
+  exists ns, head_ns c w = Some ns /\
+    step (ACmd e CStatus) w = (w, OOk (status_lines w c ns), []) /\
+    forall p,
+      (In (str "modified " ++ p) (status_lines w c ns) <->
+         exists data id, file w p = Some data /\ staged w p = Some id /\
+                         visible w (x_pats c) p = true /\ id <> obj_id KBlob data) /\
+      (In (str "deleted " ++ p) (status_lines w c ns) <-> tracked w p = true /\ wt_stat w p <> SFile) /\
+      (In (str "untracked " ++ p) (status_lines w c ns) <->
+         exists data, file w p = Some data /\ visible w (x_pats c) p = true /\ tracked w p = false) /\
+      (forall k, In (dkind_tag k ++ p) (status_lines w c ns) <-> In (k, p) (diff_with_tree (idx_of w) ns)).
+Proof. exact status_report_on_reachable. Qed.
+
+(* a file whose bytes equal its staged blob is reported in no class *)
+Theorem C13_unchanged_file_not_reported : forall w c ns p data,
+  am_sorted (w_files w) -> file w p = Some data -> staged w p = Some (obj_id KBlob data) -> wt_stat w p = SFile ->
+  ~ In (str "modified " ++ p) (status_lines w c ns) /\
+  ~ In (str "deleted " ++ p) (status_lines w c ns) /\
+  ~ In (str "untracked " ++ p) (status_lines w c ns).
+Proof. exact unchanged_file_not_reported. Qed.
+
+(* rewriting a file with identical bytes, after ANY history, leaves the whole
+   world — hence the report — unchanged (the model has no time stamps: a touch
+   is the identity) *)
+Theorem C13_identical_rewrite_reports_nothing : forall e h p d,
+  let w := run h w_empty in
+  (forall a, In a (ancestors p) -> In a (w_dirs w)) -> file w p = Some d ->
+  run (h ++ [AEdit (UWrite p d)]) w_empty = w /\
+  step (ACmd e CStatus) (run (h ++ [AEdit (UWrite p d)]) w_empty) = step (ACmd e CStatus) w.
+Proof. exact identical_rewrite_history. Qed.
+
 Print Assumptions C13_status_is_the_filters.
 Print Assumptions C13_modified_exact.
 Print Assumptions C13_same_content_not_reported.
@@ -56,3 +102,7 @@ Print Assumptions C13_tracked_never_hidden.
 Print Assumptions C13_deleted_exact.
 Print Assumptions C13_untracked_exact.
 Print Assumptions C13_no_ignore_all_visible.
+Print Assumptions C13_status_is_read_only.
+Print Assumptions C13_status_report_on_every_reachable_repository.
+Print Assumptions C13_unchanged_file_not_reported.
+Print Assumptions C13_identical_rewrite_reports_nothing.
